@@ -5,9 +5,9 @@ From Verif Require Import GoSem Recv RecvSpec RecvProofs.
 
 (** ** One preservation lemma per operation (representation invariant, no panic) *)
 
-(** seqCounters.add: outside the two defect situations (a jump of a full window, a number
-    between two stored numbers) it never panics, keeps the invariant and changes the live
-    counters exactly as the list-level specification [spec_add] says. *)
+(** seqCounters.add: outside the one remaining defect situation (a number between two stored numbers,
+    [sc_between]; the jump past a full window was repaired in ffc392a) it never panics, keeps the
+    invariant and changes the live counters exactly as the list-level specification [spec_add] says. *)
 Theorem C17_counters_add_refines : forall s n,
   sc_inv s -> sc_add_pre s n = true ->
   exists s', sc_add s n = Ok s' /\ sc_inv s' /\ sc_live s' = spec_add (sc_w s) (sc_live s) n /\ sc_w s' = sc_w s.
@@ -19,10 +19,12 @@ Theorem C17_counters_drop_inv : forall s n,
 Proof. exact sc_drop_inv. Qed.
 Print Assumptions C17_counters_drop_inv.
 
-(** resize is safe when the new window is not below the number of live counters *)
+(** resize (any window in (0, 2^32)) never panics and keeps the invariant; a window below the number
+    of live counters keeps the newest ones (502773f; before: C17_shrink_counters_refuted) *)
 Theorem C17_counters_resize_inv : forall s nw,
-  sc_inv s -> 0 < nw < two32 -> sc_n s <= nw ->
-  exists s', sc_resize s nw = Ok s' /\ sc_inv s' /\ sc_live s' = sc_live s /\ sc_w s' = nw /\ sc_n s' = sc_n s.
+  sc_inv s -> 0 < nw < two32 ->
+  exists s', sc_resize s nw = Ok s' /\ sc_inv s' /\ sc_w s' = nw
+             /\ sc_live s' = dropZ (sc_n s - nw) (sc_live s) /\ sc_n s' = Z.min (sc_n s) nw.
 Proof. exact sc_resize_inv. Qed.
 Print Assumptions C17_counters_resize_inv.
 
@@ -41,9 +43,12 @@ Theorem C17_buffer_add_refines : forall b it,
 Proof. exact sdb_add_spec. Qed.
 Print Assumptions C17_buffer_add_refines.
 
+(** resize (any size in (0, 2^32)) never panics and keeps the invariant; fewer slots than items keeps
+    the newest items and sets c.size (9e29b04; before: C17_shrink_refuted) *)
 Theorem C17_buffer_resize_inv : forall b nw,
-  sdb_inv b -> 0 < nw < two32 -> b_n b <= nw ->
-  exists b', sdb_resize b nw = Ok b' /\ sdb_inv b' /\ sdb_live b' = sdb_live b /\ b_size b' = nw /\ b_n b' = b_n b.
+  sdb_inv b -> 0 < nw < two32 ->
+  exists b', sdb_resize b nw = Ok b' /\ sdb_inv b' /\ b_size b' = nw
+             /\ sdb_live b' = dropZ (b_n b - nw) (sdb_live b) /\ b_n b' = Z.min (b_n b) nw.
 Proof. exact sdb_resize_inv. Qed.
 Print Assumptions C17_buffer_resize_inv.
 
@@ -64,7 +69,7 @@ Theorem C17_buffer_get : forall b n,
 Proof. exact sdb_getItem_ok. Qed.
 Print Assumptions C17_buffer_get.
 
-(** segmentTimelineGenerator.start is safe when the new window does not cut into what is stored *)
+(** segmentTimelineGenerator.start with any window in (0, 2^32) ([gen_resize_pre]) *)
 Theorem C17_gen_start_inv : forall g nw sh,
   gen_inv g -> gen_resize_pre g nw = true ->
   exists g', gen_start g nw sh = Ok g' /\ gen_inv g' /\ g_latest g' = g_latest g /\ g_w g' = nw
@@ -72,9 +77,12 @@ Theorem C17_gen_start_inv : forall g nw sh,
 Proof. exact gen_start_inv. Qed.
 Print Assumptions C17_gen_start_inv.
 
-(** channel.receivedSegData for one complete segment: under [chan_pre] (which names the defect
-    situations: sc_jump, sc_between, a shrinking start, a track without segments at start, a zero
-    duration) no panic, the invariant is kept, and an MPD is published only above latestSeqNr. *)
+(** channel.receivedSegData for one complete segment: under [chan_pre] no panic, the invariant is
+    kept, and an MPD is published only above latestSeqNr. The hypotheses that really remain in
+    [chan_pre] after the repairs 9e29b04, ffc392a, 502773f, 9aa9fdc: the number is a uint32
+    ([item_okb]); it does not fall between two stored numbers ([sc_between], finding
+    c17-counters-insert-overwrites); when the upload completes the measurement of the master track,
+    the duration is not 0 and the window timeShiftBufferDepthS*timescale/duration+1 is in (0, 2^32). *)
 Theorem C17_received_safe : forall c u,
   chan_inv c -> chan_pre c u = true ->
   exists o, chan_received c (up_name u) (up_item u) = Ok o /\ chan_inv (o_chan o)
@@ -116,21 +124,14 @@ Theorem C17_window : forall c,
 Proof. exact chan_window. Qed.
 Print Assumptions C17_window.
 
-(** ** Refutations (each replayed on the real structs by the harness) *)
+(** ** Refutations that remain (each replayed on the real structs by the harness) *)
 
-(** C17_safe as stated in the property (no arrival order stops the receiver) is false:
-    one video track, window 3, numbers 1,2,3 then 100: slice bounds panic in the channel goroutine *)
+(** C17_safe as stated in the property (no arrival order stops the receiver) is false: two
+    consecutive master segments of duration 0 divide by masterSegDuration = 0 in the channel goroutine *)
 Theorem C17_safe_refuted :
-  exists c ups, chan_inv c /\ chan_run c ups = Panic "seqCounters.add:slice".
+  exists c ups, chan_inv c /\ chan_run c ups = Panic "channel.receivedSegData:div".
 Proof. exact safe_refuted. Qed.
 Print Assumptions C17_safe_refuted.
-
-(** Full window [1,2,3,4], then number 100 *)
-Theorem C17_jump_refuted :
-  exists s n, sc_adds (sc_new 4) [1; 2; 3; 4] = Ok s /\ sc_inv s /\ sc_jump s n = true /\
-              sc_add s n = Panic "seqCounters.add:slice".
-Proof. exact jump_refuted. Qed.
-Print Assumptions C17_jump_refuted.
 
 (** The counters are not the per-number upload counts: inserting 6 into [5,7] overwrites 5. *)
 Theorem C17_counters_refine_refuted :
@@ -144,19 +145,6 @@ Theorem C17_insert_breaks_inv_refuted : exists s n s', sc_inv s /\ sc_add s n = 
 Proof. exact counters_insert_breaks_inv. Qed.
 Print Assumptions C17_insert_breaks_inv_refuted.
 
-(** segDataBuffer.resize to a smaller size keeps c.size: the next add indexes past len *)
-Theorem C17_shrink_refuted :
-  exists b b', sdb_inv b /\ sdb_resize b 3 = Ok b' /\ b_size b' = 8 /\ slen (b_sl b') = 3 /\ b_n b' = 3 /\
-               sdb_add b' (mkItem 6 12000 2000 false) = Panic "segDataBuffer.add:index".
-Proof. exact shrink_refuted. Qed.
-Print Assumptions C17_shrink_refuted.
-
-Theorem C17_shrink_counters_refuted :
-  exists s s', sc_inv s /\ sc_resize s 3 = Ok s' /\ sc_n s' = 5 /\ slen (sc_sl s') = 3 /\
-               sc_add s' 6 = Panic "seqCounters.add:index".
-Proof. exact shrink_counters_refuted. Qed.
-Print Assumptions C17_shrink_counters_refuted.
-
 (** a track that delivers its first segment after the start is never required: all preconditions
     hold, the MPD lists 1..2, the third registered track has no segment at all *)
 Theorem C17_late_track_refuted :
@@ -167,15 +155,48 @@ Theorem C17_late_track_refuted :
 Proof. exact late_track_refuted. Qed.
 Print Assumptions C17_late_track_refuted.
 
-Theorem C17_start_nil_refuted :
-  exists c ups, chan_inv c /\ chan_run c ups = Panic "segDataBuffer.nrItems:nil".
-Proof. exact start_nil_refuted. Qed.
-Print Assumptions C17_start_nil_refuted.
+(** ** Formerly refuted, now proved of the repaired code (the witnesses of the old refutations) *)
 
-Theorem C17_start_div_refuted :
-  exists c ups, chan_inv c /\ chan_run c ups = Panic "channel.deriveAndSetBitrates:div".
-Proof. exact start_div_refuted. Qed.
-Print Assumptions C17_start_div_refuted.
+(** C17_jump: full window [1,2,3,4], then 100 (ffc392a) *)
+Theorem C17_jump_repaired :
+  exists s s', sc_adds (sc_new 4) [1; 2; 3; 4] = Ok s /\ sc_inv s /\ sc_add s 100 = Ok s' /\ sc_live s' = [(100, 1)].
+Proof. exact jump_repaired. Qed.
+Print Assumptions C17_jump_repaired.
+
+Theorem C17_jump_run_repaired :
+  let c := chan_with [[0]] 4 [mkTrack 0 true true 90000] in
+  let ups := [up 0 1; up 0 2; up 0 3; up 0 100; up 0 101] in
+  run_pre c ups /\
+  exists c', chan_run c ups = Ok c' /\ list_eqb Z.eqb (map fst (sc_live (g_cnt (ch_gen c')))) [100; 101] = true.
+Proof. exact jump_run_repaired. Qed.
+Print Assumptions C17_jump_run_repaired.
+
+(** C17_shrink: segDataBuffer.resize 8 -> 3 with 5 items, then add 6 (9e29b04) *)
+Theorem C17_shrink_repaired :
+  exists b b' b'', sdb_inv b /\ sdb_resize b 3 = Ok b' /\ b_size b' = 3 /\ map i_seq (sdb_live b') = [3; 4; 5] /\
+               sdb_add b' (mkItem 6 12000 2000 false) = Ok (b'', true) /\ map i_seq (sdb_live b'') = [4; 5; 6].
+Proof. exact shrink_repaired. Qed.
+Print Assumptions C17_shrink_repaired.
+
+Theorem C17_shrink_counters_repaired :
+  exists s s', sc_inv s /\ sc_resize s 3 = Ok s' /\ sc_inv s' /\ sc_live s' = [(3, 1); (4, 1); (5, 1)].
+Proof. exact shrink_counters_repaired. Qed.
+Print Assumptions C17_shrink_counters_repaired.
+
+(** start while another video track has no segment yet / a track's buffer is empty (9aa9fdc) *)
+Theorem C17_start_without_segments_repaired :
+  let c := chan_with [[0; 1]] 30 [mkTrack 0 true true 90000; mkTrack 1 true true 90000] in
+  run_pre c [up 0 1; up 0 2] /\
+  exists c', chan_run c [up 0 1; up 0 2] = Ok c' /\ g_started (ch_gen c') && (g_ntracks (ch_gen c') =? 1) = true.
+Proof. exact start_without_segments_repaired. Qed.
+Print Assumptions C17_start_without_segments_repaired.
+
+Theorem C17_start_empty_buffer_repaired :
+  let c := chan_with [[0]; [2]] 30 [mkTrack 0 true true 90000; mkTrack 2 false false 1000] in
+  let ups := [mkUp 2 (mkItem 1 2000 2000 false); up 0 1; up 0 3; up 0 4] in
+  run_pre c ups /\ exists c', chan_run c ups = Ok c' /\ g_started (ch_gen c') = true.
+Proof. exact start_empty_buffer_repaired. Qed.
+Print Assumptions C17_start_empty_buffer_repaired.
 
 (** ** Non-vacuity: a run of two tracks with a gap and a duplicate satisfies every precondition and
     publishes MPDs whose newest numbers are 2, 3, 5, 6 *)
